@@ -43,4 +43,29 @@ PROPS["C08"] = {
     "assumptions": ["Rust privacy of VerifiedBlindedMessage's field", "bls12_381 group / pairing laws"],
 }
 
+PROPS["C17"] = {
+    "theorems": ["consts", "try_new_exact", "try_new_ok_iff", "pay_merchant_exact", "pay_customer_exact", "pay_merchant_in_range",
+                 "pay_customer_in_range", "customer_apply_exact", "merchant_apply_exact", "apply_payment_exact",
+                 "apply_payment_no_panic", "apply_payment_ok", "try_add_exact", "amount_to_scalar_total", "balance_to_scalar",
+                 "enc_sub", "enc_add", "enc_consistent", "balance_enc_injective", "Legacy.to_scalar_min_panics", "Legacy.to_scalar_agrees"],
+    "rule": "constructors, scalar encodings and try_add over the boundary lattice {0,1,2,2^31,2^32,2^62,2^63-2,2^63-1,2^63,2^63+1,2^64-1} plus random 64-bit values (random bit lengths); the amount encoding is exercised for the i64 with the same 8 wire bytes (so i64::MIN and every decodable amount is covered); payment application over lattice x lattice x signed lattice (incl. i64::MIN, +-balance, +-(balance+-1)) and random triples, through State::new + apply_payment (customer side evaluated first); balances above 2^63-1 are attempted through the decoder (rejected since the D3 repair); panics are caught per call (release profile with overflow-checks = true). Oracle: 128-bit reference arithmetic. Distinct = new request line.",
+    "explanation": "Theorems: exact characterisation (never panic, never wrap, exact error variant, customer side first) of try_new, pay_merchant, pay_customer, apply, apply_payment, try_add for all 64-bit inputs satisfying the type invariant; the scalar encoding is the ring map Z -> F, total on i64, with enc(b) -/+ enc(a) = enc(b -/+ a), injective on 64-bit values when char F > 2^64; the pinned to_scalar panics at i64::MIN (D5). Correspondence: every real function vs the model on the lattice and random values, exact.",
+    "level_text": "Proof: the arithmetic model (checked 64/128-bit operations with explicit panic outcome) is proved total and exact for all 64-bit inputs by omega / case analysis; tied to the Rust code by a dense differential run with overflow checks enabled.",
+    "level_note": "Trusted: Lean kernel + Mathlib (three standard axioms); the correspondence harness; rustc's overflow-check semantics as modelled (panic on +, unary -, abs overflow; `as` truncates).",
+    "assumptions": ["balances reaching apply/try_add satisfy the type invariant (guaranteed by constructors and, since the D3 repair, by the decoder)"],
+}
+
+PROPS["C11"] = {
+    "theorems": ["cpVerify_iff", "srpVerify_iff", "spVerify_true", "spVerify_iff", "change_T_rejects", "change_C_accepts_iff", "change_C_rejects",
+                 "change_z_rejects", "change_zbf_rejects", "other_challenge_accepts_iff", "other_challenge_rejects",
+                 "other_params_accepts_iff", "simulated_accepts", "simulated_rejects_other_challenge",
+                 "identity_blinded_sig_rejects", "change_sigma2_rejects", "change_sigma1_rejects", "sp_extract", "srp_extract"],
+    "extra_lemma_theorems": ["ZkVerif.cp_complete", "ZkVerif.cp_extract"],
+    "rule": "commitment proofs in G1 and G2 and signature proofs, N in {1,2,3,5,8,13}; parameters explicit (random dlogs) or generated under the scripted RNG; keys generated or decoded; messages with edge entries and zero patterns; random subsets of caller-chosen commitment scalars (incl. 0 on a zero entry); challenge derived from the builder, or fixed to 0 / 1 through the hook; honest proof (all atoms compared with the model's prover on the recovered witness), then every single-atom perturbation (each group element and each scalar by +1/-1/random/0, C and T swapped, challenge changed), each generator and h replaced, simulated transcripts under their own and under another challenge, signature proofs with sigma1'/sigma2' altered, under another key, around the identity signature (re-randomiser forced to 0 through the API) and for a signature on another message. Each verdict is compared with the model, with an independent evaluation of the relations in the real groups (two pairings for signature proofs) and with the verdict the theorems' exact side conditions predict. Distinct = new request line.",
+    "explanation": "Theorems: the three verifiers accept iff the Schnorr equation (and for signature proofs sigma1' != 1 and the pairing equation) holds; single-field changes with exact side conditions (T always; C iff c(C'-C) != 0; z_i iff g_i != 1; z_bf iff h != 1; challenge iff (c-c')C != 0; generator iff z_i(g'-g_i) != 0; sigma' via non-degeneracy); simulated transcripts; special-soundness extractors for commitment, signature-request and signature proofs (the latter yields a valid PS signature on the extracted message). Correspondence as described in 'rule'.",
+    "level_text": "Proof: exact acceptance conditions, exact perturbation side conditions and special soundness are Lean theorems for all fields, modules, pairings, lengths and inputs; tied to the Rust verifiers by exhaustive single-atom perturbation runs compared exactly in exponent space and against an independent oracle.",
+    "level_note": "Trusted: Lean kernel + Mathlib (three standard axioms); correspondence harness; bls12_381 pairing laws. 'Never accepted without knowing an opening' is delivered as special soundness (knowledge extractor); the step to Fiat-Shamir soundness is the standard forking argument, not re-proved.",
+    "assumptions": ["bilinear non-degenerate pairing", "forking lemma / random oracle for the passage from special soundness to soundness"],
+}
+
 NOT_APPLICABLE = {}
